@@ -4,6 +4,7 @@ use crate::report::Shard;
 pub mod c01_04;
 pub mod c05;
 pub mod c06;
+pub mod c07;
 pub mod c08;
 pub mod c09;
 pub mod c10;
@@ -60,6 +61,7 @@ pub fn run(args: &Args) -> Shard {
         "C20" => c20::run(args, &mut sh),
         "C08" => c08::run(args, &mut sh),
         "C09" => c09::run(args, &mut sh),
+        "C07" | "C07OOM" => c07::run(args, &mut sh),
         "DBG" => { let mut a2 = Args { prop: "C03".into(), tier: args.tier.clone(), build: args.build.clone(), seed: args.seed, shard: 0, nshards: 1, replay: None, scale: 1000 }; a2.seed = args.seed; c01_04::debug_mismatch(&a2) }
         p => sh.inconclusive.push(format!("no check implemented for {}", p)),
     }
